@@ -49,8 +49,10 @@ RULE = ("linear test equations u' = a u + b0 + b1 t + b2 t^2 + b3 t^3 (real and 
         "(evolution_rate + make_evolution_rate) or PDE({...}); solver x backend (numpy, numba source, "
         "numba JIT subset) x stepping (fixed: seed-derived dt, 1..50 steps per call, 1-3 consecutive "
         "calls, start times, rounding ties of the step count; adaptive: tolerance, initial dt, calls; "
-        "scipy) through the stepper or eq.solve; a case is distinct by all of these and non-trivial if "
-        "the state is not identically zero and the rate is not identically zero")
+        "scipy) through the stepper or eq.solve; a fixed corpus (inputs of the recorded findings, adaptive calls of "
+        "2-3 accepted steps on u'=g(t)) in all three modes; a malformed stream (dt = 0: an exception is expected); "
+        "a case is distinct by all of these and non-trivial if the state is not identically zero and the rate is "
+        "not identically zero")
 ASSUMPTIONS = [
     "rates are total functions (the exception/NaN retry branches of the adaptive loops are modelled only "
     "through the isNan oracle of adjust_dt and are not exercised)",
